@@ -97,8 +97,6 @@ Proof.
 Qed.
 
 (* the same, from the erased renderings of the parts *)
-Definition pushk_e (k : kind) (f : flat_text) : flat_text :=
-  match km k with None => f | Some m => push_m (erase_m m) f end.
 Lemma erase_pushk k f : erase (pushk k f) = pushk_e k (erase f).
 Proof. unfold pushk, pushk_e. destruct (km k); [apply erase_push|reflexivity]. Qed.
 Lemma flat_e_build' k ps : flat_e (build k ps) = pushk_e k (concat (map flat_e ps)).
